@@ -643,3 +643,10 @@ def run(ctx):
                                  "a certificate valid for the address's host name is accepted although the application asked for other names only" % f.name, loc=f.loc(c))
     if nadd < 1:
         raise Broken("C09.R8: no append to valid_peer_names found (the default from the address)")
+
+    # ------------------------------------------------------------------ R9
+    from . import C18 as c18
+    r9 = ctx.rule("C09.R9", "the handshake checks the peer against the trust anchors and revocation list of the socket itself, not of another socket")
+    c18.check_ctx_args(P, r9)
+    r10 = ctx.rule("C09.R10", "in a named network namespace the revocation list and trust anchors come from that namespace's files")
+    c18.check_ns_templates(P, r10)
